@@ -1,4 +1,4 @@
-Require Import AS.Base.Prelude AS.Base.Hex AS.Base.Dec AS.Base.Layout AS.Model.Messages.
+Require Import AS.Base.Prelude AS.Base.Hex AS.Base.Dec AS.Base.Layout AS.Model.Messages AS.Spec.Encoders.
 Open Scope N_scope.
 Ltac Zify.zify_post_hook ::= Z.to_euclidean_division_equations.
 
@@ -51,11 +51,6 @@ Proof.
 Qed.
 
 (* ---- reference encoder (Spec) and the round trip ---- *)
-Definition state_segs (f0 f1 f2 f3 : bytes) (st pw tl ton au : N) : list bytes :=
-  [f0; [st]; f1; le16 pw ++ [0; 0]; f2; le32 tl; le32 ton; le32 au; f3].
-Definition encode_state_reply (f0 f1 f2 f3 : bytes) (st pw tl ton au : N) : bytes :=
-  concat (state_segs f0 f1 f2 f3 st pw tl ton au).
-
 Theorem state_reply_roundtrip f0 f1 f2 f3 st pw tl ton au :
   length f0 = 75%nat -> length f1 = 1%nat -> length f2 = 8%nat ->
   (st = 0 \/ st = 1) -> pw < 65536 -> tl < 86400 -> ton < 86400 -> au < 86400 ->
